@@ -152,3 +152,36 @@ if __name__ == '__main__' and len(sys.argv) > 1 and sys.argv[1] == 'eashare':
 if __name__ == '__main__' and len(sys.argv) > 1 and sys.argv[1] == 'bigquota':
     # bigalloc + quota together (cluster-granular quota accounting)
     build('bigquota', ['-t', 'ext4', '-O', '^has_journal,bigalloc,quota,metadata_csum,^resize_inode', '-C', '4096', '-I', '256', '-N', '256'], 4096, post=[D])
+
+def build_iexpand():
+    """corpus/iexpand.img.xz: 128-byte inodes, no flex_bg, two groups; the blocks right behind each inode table (the ones `tune2fs -I 256` has to vacate)
+    hold data blocks, xattr blocks, directory blocks, a slow symlink and an indirect block of inodes that carry xattrs, in both groups"""
+    sc = scratch(); env = tool_env()
+    img = os.path.join(sc, 'iexpand.img')
+    rc, out = run([tool('mke2fs'), '-q', '-F', '-t', 'ext2', '-O', '^resize_inode,^dir_index', '-b', '1024', '-g', '2048', '-N', '512', '-I', '128', '-U', UUID,
+                   '-E', 'hash_seed=' + SEED, img, '4096'], env=env)
+    assert rc == 0, out
+    pat = lambda n, s: bytes(((i * 11 + s) & 0xff) | 1 for i in range(n))
+    files = {'a1': pat(1024, 1), 'a2': pat(2500, 2), 'ind': pat(14 * 1024 + 5, 3), 'b1': pat(700, 4), 'b2': pat(3 * 1024, 5), 'plain': pat(2048, 6)}
+    for n, d in files.items(): open(os.path.join(sc, 'ix.' + n), 'wb').write(d)
+    W = lambda n, dst: 'write %s %s' % (os.path.join(sc, 'ix.' + n), dst)
+    cmds = [W('a1', '/a1'), 'ea_set /a1 user.x %s' % ('X' * 200), W('a2', '/a2'), 'ea_set /a2 user.y %s' % ('Y' * 50), 'ea_set /a2 trusted.t tt',
+            'mknod /dev c 1 3', 'ea_set /dev user.d dd', 'symlink /slow %s' % ('s' * 100), 'ea_set /slow user.s ss', 'symlink /fast short', 'ea_set /fast user.f ff',
+            W('plain', '/plain'), 'mkdir /g1', W('b1', '/g1/b1'), 'ea_set /g1/b1 user.x %s' % ('X' * 200), W('b2', '/g1/b2'), 'ea_set /g1/b2 user.z zz',
+            'mknod /g1/pipe p', 'ea_set /g1/pipe user.p pp', 'symlink /g1/slow %s' % ('t' * 90), 'ea_set /g1/slow user.s ss', W('ind', '/g1/ind'), 'ea_set /g1/ind user.i ii',
+            W('ind', '/ind'), 'ea_set /ind user.i ii', 'ea_set /g1 user.dir dv']       # the directory's own EA block lands outside the region: a conversion that mishandles files still gets through its directory pass
+    script = os.path.join(sc, 'iexpand.dbg'); open(script, 'w').write('\n'.join(cmds) + '\n')
+    rc, out = run([tool('debugfs'), '-w', '-f', script, img], env=env); assert rc == 0, out
+    rc, out = run([tool('e2fsck'), '-fn', img], env=env); assert rc == 0, out
+    data = open(img, 'rb').read()
+    from xck.check import check as xcheck
+    v = xcheck(data); assert not v, v
+    rc, out = run([tool('dumpe2fs'), img], env=env); print('\n'.join(l for l in out.splitlines() if 'Inode table' in l or 'free blocks' in l))
+    for n in ('/a1', '/a2', '/dev', '/slow', '/g1', '/g1/b1', '/g1/b2', '/g1/slow', '/g1/ind', '/ind'):
+        rc, out = run([tool('debugfs'), '-R', 'stat %s' % n, img], env=env)
+        import re
+        print(n, 'ino', re.search(r'Inode: (\d+)', out).group(1), 'acl', re.search(r'File ACL: (\d+)', out).group(1), 'blocks', out.split('BLOCKS:')[-1].strip()[:80] if 'BLOCKS:' in out else '-')
+    open(os.path.join(VERIF, 'corpus', 'iexpand.img.xz'), 'wb').write(lzma.compress(data, preset=6))
+    print('iexpand built')
+if __name__ == '__main__' and len(sys.argv) > 1 and sys.argv[1] == 'iexpand':
+    build_iexpand()
